@@ -562,8 +562,12 @@ class Plugin:
             # all sources are requested all the way (including the final
             # Stopiteration), as required by lazy-mode processing requires
             for d in iters.keys():
-                if self._fetch_chunk(d, iters):
-                    raise RuntimeError(f"Plugin {d} terminated without fetching last {d}!")
+                buffer = self.input_buffer.get(d)
+                end_before = None if buffer is None else buffer.end
+                while self._fetch_chunk(d, iters):
+                    # A trailing zero-duration chunk adds neither time nor data
+                    if end_before is None or self.input_buffer[d].end != end_before:
+                        raise RuntimeError(f"Plugin {d} terminated without fetching last {d}!")
 
             # This can happen especially in time range selections
             if hasattr(self.save_when, "values"):
